@@ -538,3 +538,104 @@ Theorem serve_returns : forall ls, let s := exec good init ls in done s = true -
 Proof.
   intros ls s D V. pose proof (i_nc _ (inv_exec ls init inv_init)) as NC. fold s in NC. unfold step. rewrite NC, D, V. reflexivity.
 Qed.
+
+
+(* ---- what Stop does not wait for ends by its own steps ---- *)
+Definition rp_out (t : sess) : bool := match rp t with RExit => true | _ => false end.
+Definition hr_out (t : sess) : bool := match hr t with HExit => true | _ => false end.
+Definition gone_all (s : st) : Prop := crashed s = false /\ forall i, i < length (ss s) -> sess_gone (getS s i) = true.
+Definition is_rest (l : lab) : bool := match l with LRp _ | LHr _ => true | _ => false end.
+
+Lemma len_setS s i f : length (ss (setS s i f)) = length (ss s).
+Proof. unfold setS. cbn. apply upd_length. Qed.
+
+Lemma step_rest s l : gone_all s -> is_rest l = true ->
+  step good s l = None \/
+  exists i f, i < length (ss s) /\ step good s l = Some (setS s i f) /\
+    (forall t, sess_gone t = true -> sess_gone (f t) = true) /\
+    (forall t, rp_out t = true -> rp_out (f t) = true) /\ (forall t, hr_out t = true -> hr_out (f t) = true) /\
+    (match l with LRp _ => rp_out (f (getS s i)) = true | _ => hr_out (f (getS s i)) = true end) /\
+    (match l with LRp j | LHr j => j = i | _ => True end).
+Proof.
+  intros [NC G] R. destruct l; try discriminate R.
+  - (* LRp *) destruct (lt_dec i (length (ss s))) as [Hi|Hi].
+    2: { left. unfold step. rewrite NC. rewrite (proj2 (Nat.ltb_ge _ _)) by lia. reflexivity. }
+    specialize (G i Hi). unfold sess_gone in G. rewrite !andb_true_iff in G. destruct G as [[[[_ SK] _] _] RP].
+    apply Nat.ltb_lt in Hi as Hi'. unfold step. rewrite NC, Hi'. cbn [negb]. cbv zeta.
+    destruct (rp (getS s i)) eqn:E.
+    + right. rewrite SK. exists i. eexists. split; [exact Hi|]. split; [reflexivity|].
+      repeat split; auto; intros t; unfold sess_gone, rp_out, hr_out; cbn; auto. rewrite !andb_true_iff. tauto.
+    + right. cbn [srp_cconn good andb]. rewrite RP. exists i. eexists. split; [exact Hi|]. split; [reflexivity|].
+      repeat split; auto; intros t; unfold sess_gone, rp_out, hr_out; cbn; auto. rewrite !andb_true_iff. tauto.
+    + left. reflexivity.
+  - (* LHr *) destruct (lt_dec i (length (ss s))) as [Hi|Hi].
+    2: { left. unfold step. rewrite NC. rewrite (proj2 (Nat.ltb_ge _ _)) by lia. reflexivity. }
+    specialize (G i Hi). unfold sess_gone in G. rewrite !andb_true_iff in G. destruct G as [[[[_ _] RL] _] _].
+    apply Nat.ltb_lt in Hi as Hi'. unfold step. rewrite NC, Hi'. cbn [negb].
+    destruct (hr (getS s i)) eqn:E.
+    + right. rewrite RL. exists i. eexists. split; [exact Hi|]. split; [reflexivity|].
+      repeat split; auto; intros t; unfold sess_gone, rp_out, hr_out; cbn; auto.
+    + left. reflexivity.
+Qed.
+
+Lemma rest_gen ls : forall s, gone_all s -> forallb is_rest ls = true ->
+  let s' := exec good s ls in
+  gone_all s' /\ stops s' = stops s /\ hs s' = hs s /\ quit s' = quit s /\ cmgr s' = cmgr s /\ done s' = done s /\ length (ss s') = length (ss s) /\
+  (forall i, rp_out (getS s i) = true -> rp_out (getS s' i) = true) /\
+  (forall i, hr_out (getS s i) = true -> hr_out (getS s' i) = true) /\
+  (forall i, In (LRp i) ls -> i < length (ss s) -> rp_out (getS s' i) = true) /\
+  (forall i, In (LHr i) ls -> i < length (ss s) -> hr_out (getS s' i) = true).
+Proof.
+  induction ls as [|l r IH]; intros s G R; cbn [exec].
+  - cbn. split; [exact G|]. repeat split; auto; intros i [].
+  - cbn in R. apply andb_true_iff in R as [Rl Rr].
+    destruct (step_rest s l G Rl) as [N|(i & f & Hi & S & FG & FR & FH & FL & FI)].
+    + rewrite N. destruct (IH s G Rr) as (A & B1 & B2 & B3 & B4 & B5 & B6 & C & D & E & F).
+      split; [exact A|]. repeat split; auto.
+      * intros j [->|I] Hj; auto. 
+        (* the step was disabled: the pump had gone already *)
+        apply C. destruct G as [NC G]. unfold step in N. rewrite NC in N. apply Nat.ltb_lt in Hj as Hj'. rewrite Hj' in N. cbn [negb] in N. cbv zeta in N.
+        specialize (G j Hj). unfold sess_gone in G. rewrite !andb_true_iff in G. destruct G as [[[[_ SK] _] _] RP].
+        unfold rp_out. destruct (rp (getS s j)); auto.
+        -- rewrite SK in N. discriminate.
+        -- cbn [srp_cconn good andb] in N. rewrite RP in N. discriminate.
+      * intros j [->|I] Hj; auto.
+        apply D. destruct G as [NC G]. unfold step in N. rewrite NC in N. apply Nat.ltb_lt in Hj as Hj'. rewrite Hj' in N. cbn [negb] in N.
+        specialize (G j Hj). unfold sess_gone in G. rewrite !andb_true_iff in G. destruct G as [[[[_ _] RL] _] _].
+        unfold hr_out. destruct (hr (getS s j)); auto. rewrite RL in N. discriminate.
+    + rewrite S. set (s1 := setS s i f).
+      assert (G1 : gone_all s1).
+      { destruct G as [NC G]. split; [exact NC|]. intros j Hj. subst s1. rewrite len_setS in Hj. rewrite getS_setS by auto. destruct (Nat.eqb i j); auto. }
+      destruct (IH s1 G1 Rr) as (A & B1 & B2 & B3 & B4 & B5 & B6 & C & D & E & F).
+      assert (L1 : length (ss s1) = length (ss s)) by apply len_setS.
+      split; [exact A|]. repeat split; auto; try lia.
+      * intros j H. apply C. subst s1. rewrite getS_setS by auto. destruct (Nat.eqb i j); auto.
+      * intros j H. apply D. subst s1. rewrite getS_setS by auto. destruct (Nat.eqb i j); auto.
+      * intros j [->|I] Hj; [|apply E; auto; lia]. subst i. apply C. subst s1. rewrite getS_setS by auto. rewrite Nat.eqb_refl. exact FL.
+      * intros j [->|I] Hj; [|apply F; auto; lia]. subst i. apply D. subst s1. rewrite getS_setS by auto. rewrite Nat.eqb_refl. exact FL.
+Qed.
+
+Definition rest_of (n : nat) : list lab := map LRp (seq 0 n) ++ map LHr (seq 0 n).
+
+(* after a Stop which tore the server down has returned: what it does not wait for - read pumps on their way out, the readers
+   of the sessions - ends by its own next steps (at most two per session), and then no goroutine serving a session remains *)
+Theorem nothing_left_after_stop ls : let s := exec good init ls in tore s = true ->
+  let s' := exec good s (rest_of (length (ss s))) in
+  final s' = true /\ forallb rp_out (ss s') = true /\ forallb hr_out (ss s') = true.
+Proof.
+  intros s T s'. pose proof (inv_exec ls init inv_init) as I. fold s in I.
+  pose proof (inv_final s I T) as F.
+  assert (gone_all s) as G.
+  { split; [apply (i_nc _ I)|]. intros i Hi. unfold final in F. rewrite !andb_true_iff in F. destruct F as [[_ F] _].
+    rewrite (forallb_nth _ _ (mkSess RExit WDone HExit false true true true true)) in F. apply F; auto. }
+  assert (forallb is_rest (rest_of (length (ss s))) = true) as R.
+  { unfold rest_of. rewrite forallb_app. apply andb_true_iff. split; apply forallb_forall; intros l H; apply in_map_iff in H as (i & <- & _); reflexivity. }
+  destruct (rest_gen _ s G R) as (A & B1 & B2 & B3 & B4 & B5 & B6 & C & D & E & F'). fold s' in A, B1, B2, B3, B4, B5, B6, C, D, E, F'.
+  split; [|split].
+  - apply inv_final; [unfold s', s; rewrite <- exec_app; apply inv_exec; apply inv_init|].
+    unfold tore in *. rewrite B1. exact T.
+  - rewrite (forallb_nth _ _ (mkSess RExit WDone HExit false true true true true)). intros i Hi. apply E; [|lia].
+    unfold rest_of. apply in_or_app. left. apply in_map. apply in_seq. lia.
+  - rewrite (forallb_nth _ _ (mkSess RExit WDone HExit false true true true true)). intros i Hi. apply F'; [|lia].
+    unfold rest_of. apply in_or_app. right. apply in_map. apply in_seq. lia.
+Qed.
